@@ -1160,4 +1160,122 @@ theorem addQuestion_of (c : Cache) (h : Hist) (now : Int) (name : String) (ty : 
     · rw [if_pos hq]
     · rw [if_neg hq, if_neg (by rw [hsup]; simp)]
 
+/-! ### the obligation to ask -/
+
+/-- a turn taken when a query is due, the deadline not passed and the info incomplete *does* generate the query -/
+theorem iter_asks (s : Req) (now : Int) (c : Cache) (h : Hist) (d : Int)
+    (hinc : s.info.complete = false) (hnl : now < s.last) (hdue : s.next ≤ now) :
+    (iter lower s now c h d).2.asked = some (Gen.Lookup.this_question_type s.forced quCode qmCode s.first) := by
+  unfold iter
+  rw [if_neg (by rw [hinc]; simp)]
+  rw [if_neg (by rw [deadline_passed_iff]; omega)]
+  rw [if_pos ((query_due_iff _ _).mpr hdue)]
+
+/-- the wake-up time a sleeping request has asked for is `min(next_, last)` -/
+def WakeInv (s : Req) : Prop := ∀ w k, s.phase = .waiting w k → w = min s.next s.last
+
+theorem iter_wake (s : Req) (now : Int) (c : Cache) (h : Hist) (d : Int) : WakeInv (iter lower s now c h d).1 := by
+  intro w k hw
+  unfold iter at hw ⊢
+  split at hw
+  · simp at hw
+  · split at hw
+    · simp at hw
+    · split at hw
+      · simp only [Phase.waiting.injEq, wait_for_eq, next_base_eq] at hw
+        rw [if_neg (by assumption), if_neg (by assumption), if_pos (by assumption)]
+        simp only [next_base_eq]
+        omega
+      · simp only [Phase.waiting.injEq, wait_for_eq] at hw
+        rw [if_neg (by assumption), if_neg (by assumption), if_neg (by assumption)]
+        simp only
+        omega
+
+theorem step_wake (s : Req) (b : Block) (s' : Req) (o : Out) (hI : WakeInv s) (hs : step lower s b = some (s', o)) : WakeInv s' := by
+  cases b with
+  | start now c h d =>
+    simp only [step] at hs
+    split at hs
+    · exact absurd hs (by simp)
+    · split at hs
+      · simp only [Option.some.injEq, Prod.mk.injEq] at hs
+        rw [← hs.1]
+        intro w k hw
+        simp at hw
+      · simp only [Option.some.injEq] at hs
+        have := iter_wake lower (s.armed (loadFromCache lower c s.info now).1 now) now c h d
+        rw [hs] at this
+        exact this
+  | update now recs c =>
+    simp only [step] at hs
+    split at hs
+    · rename_i w woken hph
+      split at hs
+      · simp only [Option.some.injEq, Prod.mk.injEq] at hs
+        rw [← hs.1]
+        intro w' k' hw'
+        simp only [Phase.waiting.injEq] at hw'
+        have := hI w woken hph
+        simp only
+        omega
+      · exact absurd hs (by simp)
+    · exact absurd hs (by simp)
+  | resume now c h d =>
+    simp only [step] at hs
+    split at hs
+    · split at hs
+      · simp only [Option.some.injEq] at hs
+        have := iter_wake lower s now c h d
+        rw [hs] at this
+        exact this
+      · exact absurd hs (by simp)
+    · exact absurd hs (by simp)
+
+/-! ### a reload triggered by an SRV takes all unexpired addresses of the new host -/
+
+theorem processRecord_key_or_all (c : Cache) (i : Info) (r : Rec) (now : Int) :
+    (processRecord lower c i r now).1.serverKey = i.serverKey ∨ AddrAll lower c now (processRecord lower c i r now).1 := by
+  unfold processRecord
+  split
+  · exact Or.inl rfl
+  · split
+    · split
+      · split
+        · exact Or.inl rfl
+        · split <;> exact Or.inl rfl
+      · exact Or.inl rfl
+    · split <;> exact Or.inl rfl
+    · rename_i prio weight port server hrd
+      split
+      · exact Or.inl rfl
+      · split
+        · right
+          intro k hk x hx ht hc hn he a ha
+          simp only [Info.reloadAddrs, Info.setSrvHost, Option.some.injEq] at hk ⊢
+          subst hk
+          simp only [List.mem_append]
+          rcases ht with ht | ht
+          · exact Or.inl (addrsLifo_complete lower hx hn ht hc he ha)
+          · exact Or.inr (addrsLifo_complete lower hx hn ht hc he ha)
+        · rename_i hsame
+          left
+          have hsame' : i.serverKey = some (lower server) := by simpa using hsame
+          simp only [Info.setSrvHost]
+          exact hsame'.symm
+    · exact Or.inl rfl
+
+theorem processAll_key_or_all (c : Cache) (now : Int) : ∀ (rs : List Rec) (i : Info),
+    (processAll lower c now i rs).1.serverKey = i.serverKey ∨ AddrAll lower c now (processAll lower c now i rs).1 := by
+  intro rs
+  induction rs with
+  | nil => intro i; exact Or.inl rfl
+  | cons r rs ih =>
+    intro i
+    simp only [processAll]
+    rcases processRecord_key_or_all lower c i r now with h1 | h1
+    · rcases ih (processRecord lower c i r now).1 with h2 | h2
+      · exact Or.inl (h2.trans h1)
+      · exact Or.inr h2
+    · exact Or.inr (processAll_addrAll lower c now rs _ h1)
+
 end Zc.Lookup
